@@ -76,3 +76,6 @@ package unary
 //@   ensures  approx.Lower != approx.Upper && !approx.StartExact && approx.EndExact ==> off == approx.Lower
 //@   ensures  approx.Lower != approx.Upper && !approx.StartExact && !approx.EndExact ==> off == (approx.Lower + approx.Upper) / 2
 //@   ensures  approx.Lower <= off && off <= approx.Upper
+
+//@ # ---------------------------------------------------------------- lock discipline (C09)
+//@ guarded_by offsetCache.tables mu
